@@ -47,12 +47,17 @@ type config struct {
 }
 
 // gateLogger turns one log call of BaseApp.Commit into a gate.
-type gateLogger struct{ s *Sched }
+type gateLogger struct {
+	s     *Sched
+	onMsg func(msg string)
+}
 
 func (h gateLogger) Enabled(context.Context, slog.Level) bool { return true }
 func (h gateLogger) Handle(_ context.Context, r slog.Record) error {
 	if r.Message == "Commit synced" {
 		h.s.Gate("log:commit-synced")
+	} else if h.onMsg != nil {
+		h.onMsg(r.Message)
 	}
 	return nil
 }
@@ -69,6 +74,7 @@ type queryObs struct {
 	Stores  []string `json:"stores"`
 	Durable []int64 `json:"durable"` // durable height when each value was read
 	Panic   string  `json:"panic,omitempty"`
+	Live    bool    `json:"live,omitempty"` // .store query that fell back to the live multistore
 }
 
 type world struct {
@@ -89,7 +95,13 @@ var reKV = regexp.MustCompile(`([mb])=(-?[0-9]+)`)
 func newWorld(cfg config) *world {
 	w := &world{cfg: cfg, s: NewSched()}
 	w.g = &GateDB{DB: memdb.NewMemDB(), S: w.s, Snapshots: cfg.Snapshots}
-	p, err := NewPlainApp(PlainOpts{DB: w.g, Logger: slog.New(gateLogger{w.s}), Main: cfg.Main, Mount: cfg.Mount, Keep: cfg.Keep,
+	p, err := NewPlainApp(PlainOpts{DB: w.g, Logger: slog.New(gateLogger{w.s, func(msg string) {
+			// the live fallback reads through the LIVE store's PrefixDB, whose mutex the reader holds
+			// during Get: parking it there would block the writer, so its reads are not gated
+			if w.q != nil && strings.HasPrefix(msg, "store query snapshot path unavailable") {
+				w.q.Live = true
+			}
+		}}), Main: cfg.Main, Mount: cfg.Mount, Keep: cfg.Keep,
 		Yield: func(point string) {
 			w.s.Gate(point)
 			if w.q != nil && strings.HasPrefix(point, "q.read") {
@@ -142,7 +154,7 @@ func (w *world) startQuery(kind, ord string) {
 		case pt == "hook:rootmulti.immutableAtVersion:enter":
 			return w.cfg.Fine
 		case kind == "store" && (pt == "get:fast" || pt == "get:val"):
-			if seenD {
+			if seenD || q.Live {
 				return false
 			}
 			seenD = true
